@@ -84,7 +84,7 @@ pub fn run(ctx: &Ctx) -> Report {
     rep.required_classes = vec![
         "checkers=1", "checkers=2", "own-piece-pinned", "ep-capture-pseudo-but-illegal", "ep-capture-legal", "castle-legal",
         "castle-refused-through-attack", "castle-refused-blocked", "castle-refused-rook-uncovers-attack", "castle-king-does-not-move",
-        "castle-rook-does-not-move", "castle-non-orthodox-files", "promotion-available", "checkmate", "stalemate",
+        "castle-rook-does-not-move", "castle-non-orthodox-files", "promotion-available", "checkmate", "stalemate", "ep-set:check-by-pushed-pawn", "ep-set:discovered-slider-check", "after-null-move",
     ];
 
     // (a) start positions
